@@ -13,6 +13,7 @@ import (
 	"time"
 
 	"github.com/samaritan-proxy/samaritan/host"
+	redispb "github.com/samaritan-proxy/samaritan/pb/config/protocol/redis"
 	sutredis "github.com/samaritan-proxy/samaritan/proc/redis"
 	"github.com/samaritan-proxy/samaritan/utils/verifpoint"
 	"pgregory.net/rapid"
@@ -43,6 +44,9 @@ type dirCase struct {
 	Requests   int         `json:"requests"` // per connection, pipelined
 	MultiKey   bool        `json:"multi_key"`
 	Migrating  bool        `json:"migrating"` // the keys' slots are half-migrated: requests are redirected by ASK (ASKING+command pairs)
+	// Compression: enabled with a threshold no value reaches; every third request is an APPEND, which the backend-side filter
+	// stops (answers with an error, writes nothing): the writer's "request answered by a filter" path runs under the faults too
+	Compression bool `json:"compression,omitempty"`
 	Directives []directive `json:"directives"`
 }
 
@@ -72,7 +76,11 @@ func checkDirected(c dirCase) (inf dirInfo, v *verdict) {
 	defer w.Close()
 	ms := w.Masters()
 	w.AssignEven(ms)
-	px, err := sim.StartProxy(sim.ProxyOpts{Seeds: w.Addrs(ms), ConnectTimeout: 100 * time.Millisecond})
+	popts := sim.ProxyOpts{Seeds: w.Addrs(ms), ConnectTimeout: 100 * time.Millisecond}
+	if c.Compression {
+		popts.Compression = &redispb.Compression{Enable: true, Algorithm: redispb.Compression_SNAPPY, Threshold: 1 << 20}
+	}
+	px, err := sim.StartProxy(popts)
 	if err != nil {
 		return inf, &verdict{"proxy-start", err.Error()}
 	}
@@ -193,6 +201,10 @@ func checkDirected(c dirCase) (inf dirInfo, v *verdict) {
 					}
 					continue
 				}
+				if c.Compression && i%3 == 2 {
+					all = ref.Encode(all, ref.Cmd("APPEND", k, "x"))
+					continue
+				}
 				if i%2 == 0 {
 					all = ref.Encode(all, ref.Cmd("SET", k, "v"+strconv.Itoa(i)))
 				} else {
@@ -291,7 +303,8 @@ func parked(d1, d2 string) string {
 
 func genDirected(t *rapid.T) dirCase {
 	c := dirCase{Masters: rapid.IntRange(1, 3).Draw(t, "masters"), Conns: rapid.IntRange(1, 3).Draw(t, "conns"),
-		Requests: rapid.IntRange(1, 30).Draw(t, "requests"), MultiKey: rapid.Bool().Draw(t, "multikey"), Migrating: rapid.IntRange(0, 3).Draw(t, "migrating") == 0}
+		Requests: rapid.IntRange(1, 30).Draw(t, "requests"), MultiKey: rapid.Bool().Draw(t, "multikey"), Migrating: rapid.IntRange(0, 3).Draw(t, "migrating") == 0,
+		Compression: rapid.IntRange(0, 2).Draw(t, "compression") == 0}
 	nd := rapid.SampledFrom([]int{1, 1, 1, 2}).Draw(t, "ndir")
 	for i := 0; i < nd; i++ {
 		c.Directives = append(c.Directives, directive{
@@ -378,7 +391,7 @@ func TestDirectedGrid(t *testing.T) {
 					if idx%n != sh {
 						continue
 					}
-					c := dirCase{Masters: 2, Conns: 2, Requests: 16, MultiKey: true,
+					c := dirCase{Masters: 2, Conns: 2, Requests: 16, MultiKey: true, Compression: (idx/2)%2 == 0,
 						Directives: []directive{{Point: p, Nth: nth, Node: nth % 2, Fault: f, HoldMs: hold}}}
 					vh.CurrentCase(prop, "directed", c)
 					inf, v := checkDirected(c)
